@@ -5,11 +5,17 @@ P  Lean theorems over ℝ (lean/MjProof/Props/C35.lean) about the executable mod
    *generated* from src/user/user_util.cc by translate/c35_userutil.py (c2lean) on every run.
 T  (a) translation validation of the generated kernels: Lean on Float vs the compiled C++ functions, bitwise;
    (b) bitwise differential of the whole hand model (GetVolume, SetInertia, geom mass branch, InertiaFromGeom incl.
-       the Jacobi iteration mjuu_eig3 / mjuu_fullInertia, body bounds) against bodies compiled through the mjSpec API.
+       the Jacobi iteration mjuu_eig3 / mjuu_fullInertia, body bounds) against bodies compiled through the mjSpec API;
+   (c) bitwise differential of `bodyCompile` / `applyTotalmass` (the inertial part of mjCBody::Compile: explicit inertial
+       clause with diagonal or full inertia in any slot order, valid / lamina / non-physical / negative / indefinite,
+       inertiafromgeom false|true|auto, inertiagrouprange, boundmass, boundinertia, balanceinertia, settotalmass)
+       against bodies compiled with those mjsBody fields and compiler options (`ibody` lines).
 S  property oracle on the compiled output alone: analytic composition recomputed independently in Python (density ×
    volume, parallel axis), triangle inequality, reconstruction of the full tensor from (body_iquat, body_inertia),
    ellipsoid shell (Thomsen area, finite-difference shell inertia), exact polyhedral meshes, and convergence of
-   procedural / generated tessellations of the primitives.
+   procedural / generated tessellations of the primitives; for `ibody` cases: EVERY compiled body has non-negative
+   moments with A + B >= C and respects the bounds, explicit clauses are stored as given / as the principal
+   decomposition of the given tensor, non-physical clauses are rejected or balanced, valid ones (incl. A + B == C) compile.
 """
 import json
 import math
@@ -21,8 +27,8 @@ from checks import common
 
 META = {
     "technique": "c2lean translation of the user_util.cc helper kernels (regenerated every run) + hand model of mjCGeom::GetVolume/SetInertia, mjCBody::InertiaFromGeom/AccumulateInertia, mjuu_eig3/mjuu_fullInertia over a law-free number class + Lean 4 proofs over the reals (field_simp/ring against textbook formulas, induction over the geom list, quadratic-form argument for the triangle inequality) + bitwise differential of the model (Lean Float) against bodies compiled through the mjSpec C API + independent analytic oracle in Python incl. mesh tessellations",
-    "text": "Proved over the reals, for the model instantiated with pi = Real.pi: for every primitive geom type the volume (and the surface area used for shell inertia) computed by GetVolume equals the analytic value (sphere 4/3 pi r^3 / 4 pi r^2, capsule, cylinder incl. end disks, ellipsoid volume, box); with mass = density x volume the principal moments set by SetInertia equal the textbook composition for solid AND shell variants (solid sphere 2/5 M r^2, spherical shell 2/3 M r^2, solid/thin-walled cylinder with end disks, capsule = cylinder + two hemispheres moved by the parallel-axis theorem with centres of mass at 3r/8 resp. r/2, solid ellipsoid, solid box, box surface as six thin plates) for all positive sizes; a geom given by mass has the properties of density mass/volume; every primitive with non-negative mass and positive sizes satisfies A+B>=C (all ten type/shell cases except the ellipsoid shell); the inertia accumulated by the geom loop of InertiaFromGeom (and of AccumulateInertia) about a point c is exactly sum_i R_i diag(I_i) R_i^T + m_i(|d_i|^2 1 - d_i d_i^T) with the generated mjuu_globalinertia / mjuu_offcenter kernels (parallel_axis), the first loop yields total mass and the mass-weighted mean position, and the Huygens-Steiner theorem holds for the list (inertia about the origin = inertia about the centre of mass + M(|c|^2 1 - c c^T)); sums of parts with unit orientations, non-negative masses and A+B>=C satisfy the coordinate-free triangle inequality, hence every exact principal decomposition (unit q, lambda) of the accumulated tensor has lambda with A+B>=C; for a unit iquat the columns of its rotation matrix are eigenvectors of R diag(inertia) R^T with the stored moments as eigenvalues (principal_axes_reconstruct: the certificate the oracle checks on compiled bodies).",
-    "note": "Partial: the Jacobi iteration mjuu_eig3 is modelled and tied bitwise but NOT proved to diagonalise (inertiaFromGeom_spec_partial states the result is mjuu_fullInertia of the analytic tensor about the weighted-mean point; diagonalisation is checked per compiled body by the reconstruction certificate, measured accuracy ~1e-6 relative because the C loop stops when cos > 1 - 1e-12). Not modelled, oracle only: mesh volume/inertia integrals of user_mesh.cc (exact polyhedra compared at 1e-9, tessellations of sphere / ellipsoid / cylinder / capsule / box converge to the primitive; collision meshes need qhull which is stubbed, so only non-colliding mesh geoms are compiled; mjMESH_INERTIA_CONVEX cannot be exercised), the ellipsoid shell (std::pow Thomsen area: compared with a numerical surface integral at 1.5%; finite-difference shell inertia compared with the analytic thin-shell limit at 1e-4), inertiagrouprange, boundmass/boundinertia/balanceinertia with non-default values, settotalmass. pi is a parameter of the model: the driver passes the mjPI literal, the theorems Real.pi. The specification formulas are closed forms (textbook decomposition), not Lebesgue integrals. Reals vs IEEE doubles: rounding is outside the proofs. src/xml is stubbed: bodies are built through the mjSpec C API.",
+    "text": "Proved over the reals, for the model instantiated with pi = Real.pi: for every primitive geom type the volume (and the surface area used for shell inertia) computed by GetVolume equals the analytic value (sphere 4/3 pi r^3 / 4 pi r^2, capsule, cylinder incl. end disks, ellipsoid volume, box); with mass = density x volume the principal moments set by SetInertia equal the textbook composition for solid AND shell variants (solid sphere 2/5 M r^2, spherical shell 2/3 M r^2, solid/thin-walled cylinder with end disks, capsule = cylinder + two hemispheres moved by the parallel-axis theorem with centres of mass at 3r/8 resp. r/2, solid ellipsoid, solid box, box surface as six thin plates) for all positive sizes; a geom given by mass has the properties of density mass/volume; every primitive with non-negative mass and positive sizes satisfies A+B>=C (all ten type/shell cases except the ellipsoid shell); the inertia accumulated by the geom loop of InertiaFromGeom (and of AccumulateInertia) about a point c is exactly sum_i R_i diag(I_i) R_i^T + m_i(|d_i|^2 1 - d_i d_i^T) with the generated mjuu_globalinertia / mjuu_offcenter kernels (parallel_axis), the first loop yields total mass and the mass-weighted mean position, and the Huygens-Steiner theorem holds for the list (inertia about the origin = inertia about the centre of mass + M(|c|^2 1 - c c^T)); sums of parts with unit orientations, non-negative masses and A+B>=C satisfy the coordinate-free triangle inequality, hence every exact principal decomposition (unit q, lambda) of the accumulated tensor has lambda with A+B>=C; for a unit iquat the columns of its rotation matrix are eigenvectors of R diag(inertia) R^T with the stored moments as eigenvalues (principal_axes_reconstruct: the certificate the oracle checks on compiled bodies); for the inertial part of mjCBody::Compile (bodyCompile: explicit inertial clause with diagonal or full inertia, inertiafromgeom false/true/auto, inertiagrouprange, boundmass/boundinertia clamp, sign check, triangle check, balanceinertia) EVERY successful result, for all inputs and options, has non-negative mass and moments within the bounds satisfying A+B>=C in all three arrangements (bodyCompile_triangle / bodyFinish_triangle), physically valid values within the bounds incl. the lamina A+B=C pass unchanged and an explicit clause with unit quaternion is stored exactly as given (bodyFinish_physical, bodyCompile_explicit), non-physical moments in ANY slot order are rejected, or replaced by their mean under balanceinertia (bodyFinish_nonphysical); mj_setTotalmass multiplies all masses and moments by one positive factor, keeps the triangle inequality and reaches the requested total (setTotalmass_eq/_triangle/_total).",
+    "note": "Partial: the Jacobi iteration mjuu_eig3 is modelled and tied bitwise but NOT proved to diagonalise (inertiaFromGeom_spec_partial states the result is mjuu_fullInertia of the analytic tensor about the weighted-mean point; diagonalisation is checked per compiled body by the reconstruction certificate, measured accuracy ~1e-6 relative because the C loop stops when cos > 1 - 1e-12). Not modelled, oracle only: mesh volume/inertia integrals of user_mesh.cc (exact polyhedra compared at 1e-9, tessellations of sphere / ellipsoid / cylinder / capsule / box converge to the primitive; collision meshes need qhull which is stubbed, so only non-colliding mesh geoms are compiled; mjMESH_INERTIA_CONVEX cannot be exercised), the ellipsoid shell (std::pow Thomsen area: compared with a numerical surface integral at 1.5%; finite-difference shell inertia compared with the analytic thin-shell limit at 1e-4), free-joint alignment (alignfree) and bodies with a non-default body frame or a parent frame (the `ibody` body is a static child of the world with default frame), ialt orientation alternatives of the inertial frame (C36 covers the orientation resolver). bodyCompile / bodyFinish / setTotalmass are hand models tied by the bitwise differential over all branch combinations (distribution in ibody_distribution), not by c2lean (struct member access). pi is a parameter of the model: the driver passes the mjPI literal, the theorems Real.pi. The specification formulas are closed forms (textbook decomposition), not Lebesgue integrals. Reals vs IEEE doubles: rounding is outside the proofs. src/xml is stubbed: bodies are built through the mjSpec C API.",
 }
 
 P = "MjProof.C35."
@@ -37,6 +43,9 @@ THEOREMS = [P + t for t in (
     "triangleFull_diag", "triangleFull_add", "triangleFull_pointMass", "triangleFull_rotateDiag",
     "triangleFull_inertiaAbout", "triangle_of_triangleFull", "sum_preserves_triangle",
     "principal_axes_reconstruct",
+    "bodyFinish_triangle", "bodyFinish_frame", "bodyFinish_physical", "bodyFinish_nonphysical",
+    "bodyCompile_triangle", "bodyCompile_explicit",
+    "setTotalmass_eq", "setTotalmass_triangle", "setTotalmass_total",
 )]
 
 # generated kernels the model / theorems depend on (a refusal breaks the tie)
@@ -295,6 +304,139 @@ def gen_diff_lines(ctx):
     return lines, meta
 
 
+# ---- bodies with an inertial clause and non-default compiler options (the inertial part of mjCBody::Compile)
+def perm3(rng, v):
+    v = list(v)
+    rng.shuffle(v)
+    return v
+
+
+def rdiag(rng):
+    """(kind, [d0, d1, d2]) for an explicit diagonal inertia"""
+    k = rng.choice(("valid-sorted", "valid-unsorted", "valid-unsorted", "boundary", "nonphys", "nonphys", "nonphys",
+                    "negative", "zero", "equal"))
+    sc = 10 ** rng.uniform(-4, 2)
+    if k.startswith("valid") or k == "nonphys":
+        a, b = sorted((rng.uniform(0.05, 1.0), rng.uniform(0.05, 1.0)))
+        if k == "nonphys":
+            c = (a + b) * (1 + rng.choice((1e-6, 1e-3, 0.05, 1.0, 9.0)))
+            slot = rng.randrange(3)             # where the offending (largest) moment goes
+            d = [a, b]
+            rng.shuffle(d)
+            d.insert(slot, c)
+            return "nonphys:slot%d" % slot, [x * sc for x in d]
+        c = rng.uniform(b, (a + b) * (1 - 1e-6))   # b <= c < a + b
+        d = [c, b, a] if k == "valid-sorted" else perm3(rng, (a, b, c))
+        return k, [x * sc for x in d]
+    if k == "boundary":                            # A + B == C exactly (dyadic): a lamina, physically valid
+        a, b = rng.randint(1, 64) / 64.0, rng.randint(1, 64) / 64.0
+        return k, perm3(rng, (a, b, a + b))
+    if k == "negative":
+        d = perm3(rng, (rng.uniform(0.1, 1), rng.uniform(0.1, 1), -rng.choice((1e-9, 0.01, 0.5))))
+        return k, d
+    if k == "zero":
+        return k, [0.0, 0.0, 0.0]
+    x = rng.uniform(0.01, 2)
+    return "equal", [x, x, x]
+
+
+def ribody(rng):
+    """one `ibody` case: compiler options + inertial clause + geoms"""
+    c = {}
+    c["bm"] = 0.0 if rng.random() < 0.65 else rng.choice((rng.uniform(0.001, 5.0), 100.0))
+    c["bi"] = 0.0 if rng.random() < 0.65 else 10 ** rng.uniform(-6, 0.5)
+    c["bal"] = int(rng.random() < 0.4)
+    c["ifg"] = rng.choice((2, 2, 2, 1, 1, 0))
+    r = rng.random()
+    c["range"] = [0, 5] if r < 0.65 else (sorted((rng.randint(0, 5), rng.randint(0, 5))) if r < 0.92 else
+                                           rng.choice(([3, 2], [-2, -1], [6, 9], [-1, 7])))
+    c["stm"] = rng.choice((0.0, -1.0)) if rng.random() < 0.8 else rng.uniform(0.1, 20.0)
+    kind = rng.choice(("none", "diag", "diag", "diag", "full", "full"))
+    c["mass"] = 0.0
+    c["ipos"] = [0.0, 0.0, 0.0]
+    c["iquat"] = [1.0, 0.0, 0.0, 0.0]
+    c["diag"] = [0.0, 0.0, 0.0]
+    c["full"] = [0.0] * 6
+    c["hasfull"] = 0
+    c["expl"] = c["hasipos"] = 0
+    c["ikind"] = kind
+    if kind != "none":
+        c["expl"] = c["hasipos"] = 1
+        r = rng.random()
+        c["mass"] = rng.uniform(0.01, 50.0) if r < 0.85 else (0.0 if r < 0.93 else -rng.uniform(0.01, 1.0))
+        c["ipos"] = [rng.uniform(-1, 1) for _ in range(3)] if rng.random() < 0.8 else [0.0, 0.0, 0.0]
+        c["iquat"] = rquat(rng)
+        if kind == "diag":
+            c["ikind"], c["diag"] = rdiag(rng)
+            c["ikind"] = "diag:" + c["ikind"]
+        else:
+            fk = rng.choice(("valid", "valid", "diagonal", "nonphys", "nonphys", "indefinite", "with-diag"))
+            if fk in ("valid", "diagonal", "with-diag"):
+                _, ev = rdiag(rng)
+                while min(ev) <= 1e-6 or 2 * max(ev) > sum(ev) * (1 - 1e-6):
+                    _, ev = rdiag(rng)
+            elif fk == "nonphys":
+                k2, ev = rdiag(rng)
+                while not k2.startswith("nonphys"):
+                    k2, ev = rdiag(rng)
+                ev = [max(x, 1e-3) for x in ev]
+            else:
+                ev = perm3(rng, (rng.uniform(0.1, 1), rng.uniform(0.1, 1), -rng.uniform(0.001, 0.5)))
+            q = [1.0, 0.0, 0.0, 0.0] if fk == "diagonal" else qnorm([rng.gauss(0, 1) for _ in range(4)])
+            T = rdrt(qmat(q), ev)
+            c["full"] = [T[0][0], T[1][1], T[2][2], T[0][1], T[0][2], T[1][2]]
+            c["hasfull"] = 1
+            c["fullev"] = sorted(ev, reverse=True)
+            if fk == "with-diag":
+                c["diag"] = perm3(rng, (0.0, 0.0, rng.choice((1.0, 1e-300, -0.5))))
+            c["ikind"] = "full:" + fk
+        r = rng.random()
+        if r < 0.04:
+            c["expl"] = 0          # inconsistent flag combinations of the mjSpec API
+        elif r < 0.08:
+            c["hasipos"] = 0
+    n = rng.choice((0, 0, 1, 1, 2, 3)) if kind != "none" else rng.choice((0, 1, 1, 2, 2, 3, 4))
+    c["geoms"] = []
+    for _ in range(n):
+        g = rgeom(rng)
+        g["group"] = rng.randint(0, 5)
+        c["geoms"].append(g)
+    return c
+
+
+def ibody_line(c):
+    toks = [fb(c["bm"]), fb(c["bi"]), str(c["bal"]), str(c["ifg"]), str(c["range"][0]), str(c["range"][1]), fb(c["stm"]),
+            str(c["expl"]), fb(c["mass"]), str(c["hasipos"])]
+    toks += [fb(x) for x in c["ipos"] + c["iquat"] + c["diag"]] + [str(c["hasfull"])] + [fb(x) for x in c["full"]]
+    toks.append(str(len(c["geoms"])))
+    for g in c["geoms"]:
+        toks += [str(g["group"])] + geom_tokens(g)
+    return "ibody " + " ".join(toks)
+
+
+def gen_ibody_lines(ctx):
+    rng = ctx.rng
+    n = 6000 if ctx.tier == "thorough" else 350
+    lines, cases, hist = [], [], {}
+    for _ in range(n):
+        c = ribody(rng)
+        lines.append(ibody_line(c))
+        cases.append(c)
+        for k in ("inertial=" + c["ikind"], "fromgeom=%d" % c["ifg"], "balance=%d" % c["bal"],
+                  "boundmass=%s" % ("0" if c["bm"] == 0 else ">0"), "boundinertia=%s" % ("0" if c["bi"] == 0 else ">0"),
+                  "grouprange=%s" % ("default" if c["range"] == [0, 5] else "narrowed"),
+                  "settotalmass=%s" % (">0" if c["stm"] > 0 else "off"), "ngeom=%d" % len(c["geoms"])):
+            hist[k] = hist.get(k, 0) + 1
+    # malformed: both sides must reject
+    good = ibody_line(ribody(rng)).split()
+    for bad in (good[:20], good[:4] + ["3"] + good[5:], good[:3] + ["2x"] + good[4:], good + ["0"],
+                good[:28] + [str(int(good[28]) + 1)] + good[29:]):
+        lines.append(" ".join(bad))
+        cases.append(None)
+    ctx.extra["ibody_distribution"] = hist
+    return lines, cases
+
+
 def gen_kernel_lines(ctx, manifest):
     rng = ctx.rng
     per = 600 if ctx.tier == "thorough" else 60
@@ -429,6 +571,127 @@ class Oracle:
         tr = sum(I)
         if I[0] + I[1] < I[2] - 1e-12 * tr or I[0] + I[2] < I[1] - 1e-12 * tr or I[1] + I[2] < I[0] - 1e-12 * tr or min(I) < 0:
             self.fail(label + ":triangle", "compiled body_inertia violates A + B >= C: %r" % (I,), rp)
+
+
+    # ---- bodies with an inertial clause / non-default compiler options (`ibody` lines)
+    def check_ibody(self, line, out, c):
+        """Independent statement of what the compiler must deliver for an `ibody` case (implementation output alone):
+        every compiled body has non-negative moments satisfying A + B >= C and respects boundmass / boundinertia /
+        settotalmass; an explicit inertial clause is stored as given (diaginertia) or as the principal decomposition of
+        the given tensor (fullinertia); non-physical clauses are rejected, or balanced to their mean with balanceinertia;
+        physically valid ones (incl. the lamina A + B == C) compile."""
+        self.checked += 1
+        rp = {"line": line[:3000], "impl_output": out, "case": c, "replay": "echo '<line>' | <c35_mass harness>"}
+        toks = out.split()
+        compiled = len(toks) == 11
+        if not compiled and out != "error":
+            return self.fail("ibody:malformed-output", "unexpected output: " + out[:100], rp)
+        bm, bi, stm = c["bm"], c["bi"], c["stm"]
+        if compiled:
+            v = [unb(x) for x in toks]
+            mass, ipos, iquat, I = v[0], v[1:4], v[4:8], v[8:11]
+            tr = sum(I)
+            if not (mass >= 0 and min(I) >= 0):
+                return self.fail("ibody:negative", "compiled body has negative mass or moments: %r %r" % (mass, I), rp)
+            if 2 * max(I) - tr > 1e-12 * tr:
+                return self.fail("ibody:triangle", "compiled body_inertia violates A + B >= C: %r (inertial %s, balanceinertia=%d)"
+                                 % (I, c["ikind"], c["bal"]), rp)
+            if abs(sum(x * x for x in iquat) - 1) > 1e-9:
+                return self.fail("ibody:iquat-norm", "body_iquat is not a unit quaternion: %r" % (iquat,), rp)
+            if stm <= 0 and (mass < bm * (1 - 1e-12) or min(I) < bi * (1 - 1e-12)):
+                return self.fail("ibody:bound", "boundmass %r / boundinertia %r not enforced: mass %r inertia %r" % (bm, bi, mass, I), rp)
+        if c["expl"] != c["hasipos"]:
+            return   # flag combinations that no MJCF can express: bitwise differential + the clauses above only
+        lo, hi = c["range"]
+        from_geoms = c["ifg"] == 1 or (c["ifg"] == 2 and not c["expl"])
+        sel = [g for g in c["geoms"] if lo <= g["group"] <= hi] if from_geoms else []
+        parts = self.expected_parts(sel)
+        if any(g["t"] == ELLIPSOID and g["sh"] for g in c["geoms"]):
+            return
+        frame = None      # expected unit iquat (up to sign) when it is determined
+        full = None       # expected full tensor in the body frame (before bounds / balancing / scaling)
+        elementwise = False
+        fullmom = None
+        if c["hasfull"]:
+            # an inertial clause is validated even when the geoms override it (inertiafromgeom = true)
+            if any(x != 0 for x in c["diag"]):
+                if compiled:
+                    self.fail("ibody:full+diag-accepted", "fullinertia together with a diagonal inertia was accepted", rp)
+                return
+            f = c["full"]
+            full = [[f[0], f[3], f[4]], [f[3], f[1], f[5]], [f[4], f[5], f[2]]]
+            fullmom = eigvals_sym3(full)
+            if fullmom[2] < -1e-9 * abs(fullmom[0]):
+                if compiled:
+                    self.fail("ibody:indefinite-accepted", "fullinertia with eigenvalues %r was accepted" % (fullmom,), rp)
+                return
+            if fullmom[2] < 1e-9 * abs(fullmom[0]) + 1e-12:
+                return   # at the positivity threshold mjEPS: either outcome
+        if parts:
+            M, p0, T = compose(parts)
+            if len(parts) == 1:
+                mom, frame, elementwise, p0 = list(parts[0][3]), parts[0][2], True, parts[0][1]
+            else:
+                mom, full = eigvals_sym3(T), T
+            m0, kind = M, "geoms"
+        else:
+            m0, p0, kind = c["mass"], (c["ipos"] if c["hasipos"] else [0.0, 0.0, 0.0]), c["ikind"]
+            if c["hasfull"]:
+                mom = fullmom
+            else:
+                mom, frame, elementwise = list(c["diag"]), (qnorm(c["iquat"]) if c["hasipos"] else [1.0, 0.0, 0.0, 0.0]), True
+        # bounds, sign check, triangle inequality, balancing
+        m1 = max(m0, bm)
+        mom1 = [max(x, bi) for x in mom]
+        changed = mom1 != mom
+        if m1 < 0 or min(mom1) < 0:
+            if compiled:
+                self.fail("ibody:negative-accepted", "negative mass / inertia (%r, %r) was accepted" % (m1, mom1), rp)
+            return
+        tr1 = sum(mom1)
+        viol = 2 * max(mom1) - tr1
+        exact_ok = tr1 == 0 or mom1[0] == mom1[1] == mom1[2] or (c["ikind"] == "diag:boundary" and kind != "geoms" and not changed)
+        if not exact_ok and abs(viol) <= 1e-9 * tr1:
+            return       # within rounding of A + B == C: either outcome
+        if viol > 0 and not exact_ok:
+            if not c["bal"]:
+                if compiled:
+                    self.fail("ibody:nonphysical-accepted", "non-physical inertia %r (inertial %s) compiled without balanceinertia: body_inertia %r"
+                              % (mom1, kind, I), rp)
+                return
+            mom1, changed = [tr1 / 3.0] * 3, True
+        if not compiled:
+            return self.fail("ibody:valid-rejected", "physically valid mass %r / inertia %r (inertial %s) was rejected" % (m1, mom1, kind), rp)
+        scale = 1.0
+        if stm > 0:
+            scale = max(1e-15, stm / max(1e-15, m1))
+            if scale > 1e12:
+                return
+        m2, mom2 = m1 * scale, [x * scale for x in mom1]
+        tr2 = sum(mom2)
+        tolm = REL if kind == "geoms" else 1e-12
+        if abs(mass - m2) > tolm * abs(m2) + 1e-300:
+            return self.fail("ibody:mass", "body_mass %r, expected %r (inertial %s, boundmass %r, settotalmass %r)" % (mass, m2, kind, bm, stm), rp)
+        if max(abs(a - b) for a, b in zip(ipos, p0)) > tolm * (1 + max(abs(x) for x in p0)):
+            return self.fail("ibody:ipos", "body_ipos %r, expected %r (inertial %s)" % (ipos, p0, kind), rp)
+        if elementwise:
+            if max(abs(a - b) for a, b in zip(I, mom2)) > tolm * tr2 + 1e-300:
+                return self.fail("ibody:inertia", "body_inertia %r, expected %r (inertial %s, boundinertia %r, balanceinertia %d, settotalmass %r)"
+                                 % (I, mom2, kind, bi, c["bal"], stm), rp)
+            if min(max(abs(a - b) for a, b in zip(iquat, frame)), max(abs(a + b) for a, b in zip(iquat, frame))) > 1e-9:
+                return self.fail("ibody:iquat", "body_iquat %r, expected %r" % (iquat, frame), rp)
+        else:
+            d = max(abs(a - b) for a, b in zip(sorted(I, reverse=True), sorted(mom2, reverse=True)))
+            if d > REL_RECON * tr2 + ABS_MOMENT * max(1.0, scale):
+                return self.fail("ibody:moments", "body_inertia %r differs from the eigenvalues %r of the given tensor (inertial %s)" % (I, mom2, kind), rp)
+            if not changed:
+                Rc = rdrt(qmat(iquat), I)
+                dr = max(abs(Rc[i][j] - full[i][j] * scale) for i in range(3) for j in range(3))
+                self.dev("reconstruct", dr / max(tr2, 1e-300))
+                if dr > REL_RECON * tr2 + ABS_RECON * max(1.0, scale):
+                    return self.fail("ibody:reconstruct", "R(iquat) diag(inertia) R^T differs from the given tensor by %g (trace %g, inertial %s)"
+                                     % (dr, tr2, kind), rp)
+        self.nibody_full = getattr(self, "nibody_full", 0) + 1
 
 
 def ellipsoid_area_quadrature(a, b, c, n=120):
@@ -615,7 +878,10 @@ def mesh_oracle(ctx, orc, impl):
 def run(ctx):
     ctx.rule = ("op lines: `vol`/`inert` per primitive type x {solid, shell} with sizes in [0.005, 3], `body` with 1-5 posed "
                 "geoms (mass or density given, unit / unnormalised / identity / 90-degree quaternions, coincident and identical "
-                "parts, parts below the mass threshold), kernel lines for the generated user_util.cc kernels, mesh lines "
+                "parts, parts below the mass threshold), `ibody` with an inertial clause (none / diagonal valid, unsorted, lamina, "
+                "non-physical in each slot, negative, zero / full valid, diagonal, non-physical, indefinite, with diagonal) x "
+                "compiler options (boundmass, boundinertia, balanceinertia, inertiafromgeom, inertiagrouprange, settotalmass) x "
+                "0-4 grouped geoms, kernel lines for the generated user_util.cc kernels, mesh lines "
                 "(exact polyhedra, refinement sequences); a case is distinct by its full line; non-trivial = every accepted op")
     # ---- T: regenerate the user_util kernels from the working tree
     r = common.sh([sys.executable, os.path.join(common.VERIF, "translate", "c35_userutil.py")], timeout=900)
@@ -646,8 +912,27 @@ def run(ctx):
     lines, meta = gen_diff_lines(ctx)
     ctx.differential("GetVolume / SetInertia / InertiaFromGeom+eig3 model vs compiled bodies (mjSpec), bitwise",
                      [drv], [impl], lines, keyf=lambda l: l if l.split()[0] in ("vol", "inert", "body") and len(l.split()) > 5 else None)
+    # ---- T (c): inertial clause + compiler options (bodyCompile / applyTotalmass), bitwise
+    ilines, icases = gen_ibody_lines(ctx)
+    ctx.differential("explicit inertial / boundmass / boundinertia / balanceinertia / inertiafromgeom / inertiagrouprange / "
+                     "settotalmass: bodyCompile model vs compiled bodies (mjSpec), bitwise",
+                     [drv], [impl], ilines, keyf=lambda l: l if len(l.split()) >= 29 else None)
     # ---- S: oracle on the implementation alone
     orc = Oracle(ctx)
+    rc, iouts, err = ctx.run_lines([impl], ilines)
+    if rc != 0 or len(iouts) != len(ilines):
+        ctx.oracle_failure("c35:crash", "c35_mass crashed on ibody lines (rc=%s)" % rc, {"stderr": err[-500:]})
+        return
+    nerr = 0
+    for line, out, c in zip(ilines, iouts, icases):
+        if c is None:
+            if out != "bad-op":
+                orc.fail("malformed-accepted", "malformed op accepted", {"line": line, "impl_output": out})
+            continue
+        nerr += out == "error"
+        orc.check_ibody(line, out, c)
+    ctx.extra["ibody_cases"] = {"total": len(ilines) - 5, "rejected_by_compiler": nerr,
+                                "fully_predicted_by_oracle": getattr(orc, "nibody_full", 0)}
     rc, outs, err = ctx.run_lines([impl], lines)
     if rc != 0 or len(outs) != len(lines):
         ctx.oracle_failure("c35:crash", "c35_mass crashed (rc=%s)" % rc, {"stderr": err[-500:]})
